@@ -52,7 +52,7 @@ def unxf : PyExpr → PyExpr
   | .unsupported k => .unsupported k
   | .keyword n v => .keyword n (unxf v)
   | .comp t it ifs a => .comp (unxf t) (unxf it) (unxfL ifs) a
-  | .param n ann d => .param n ann (unxfO d)
+  | .param n ann d => .param n (unxfO ann) (unxfO d)
   | .dictItem k v => .dictItem (unxfO k) (unxf v)
   | .cmpRhs op e => .cmpRhs op (unxf e)
 def unxfL : List PyExpr → List PyExpr
